@@ -233,7 +233,9 @@ J_iv_comp(e) ==
       rshift == IF ~Shifts(a) /\ ~Shifts(b) THEN "-"
                 ELSE IF (Shifts(a) => RustShiftOK(DT(a.z, a.w, a.f))) /\ (Shifts(b) => RustShiftOK(DT(b.z, b.w, b.f))) THEN "ok" ELSE "bad"
   IN R(<<e.a.rel, B(fwd), "br", alg.br, B(alg.borrow), "premise", B(premise), "lo", PClass(lo), "hi", PClass(hi), "rust-shift", rshift, "sameday-offchg",
-         (IF ~sdo THEN "0" ELSE IF Abs(OffOf(DT(a.z, a.w, a.f)) - OffOf(DT(b.z, b.w, b.f))) >= 43200 THEN "dateline" ELSE "1")>>,
+         (IF ~sdo THEN "0" ELSE IF Abs(OffOf(DT(a.z, a.w, a.f)) - OffOf(DT(b.z, b.w, b.f))) >= 43200 THEN "dateline" ELSE "1"),
+         \* one instant written on two wall-clock dates (the helpers' total_days slot is taken from the wall dates)
+         "same-instant-two-dates", B(~dates /\ PointOf(a) = PointOf(b) /\ <<a.w[1], a.w[2], a.w[3]>> # <<b.w[1], b.w[2], b.w[3]>>)>>,
        IF p.k = "exc" THEN << <<"unexpected-exception", p.names>> >>
        ELSE V("in_months", p.in_months = 12 * c[1] + c[2], 12 * c[1] + c[2])
             \o V("backends-agree", p.py = p.rs, p.py)
